@@ -47,11 +47,13 @@ def gen_cases(tier, rng):
         cases += G.gen_two_step('D', [1, 2])
     nrand = 1500 if quick else 15000
     cases += G.gen_random('D', rng, nrand)
+    fail_cases, fail_info = G.gen_sprintf_fail('D', tier)
+    cases += fail_cases
     return {'cases': cases, 'exhaustive': True,
             'scopes': ['exhaustive: L in %s, all contents over {a,b}, every operation with positions/counts in 0..L+2 and '
                        'npos, sources of length 0..L+2' % caps]
                       + ([] if quick else ['exhaustive: two-step mutator histories on L in 1..2'])
-                      + ['random: %d histories of 4..24 operations on L in %s' % (nrand, G.LARGE_CAPS)]}
+                      + ['random: %d histories of 4..24 operations on L in %s' % (nrand, G.LARGE_CAPS)] + fail_info}
 
 
 steps = G.steps
